@@ -55,6 +55,7 @@ import (
 	"io/fs"
 	"os"
 	"path/filepath"
+	"regexp"
 	"runtime/pprof"
 	"sort"
 	"strings"
@@ -211,16 +212,71 @@ func (d *fdriver) Open(dsn string) (driver.Conn, error) {
 	return &fconn{c: c.(*sqlite3.SQLiteConn)}, nil
 }
 
+// SQLite's own clock. CURRENT_TIMESTAMP (tier_files.migrated_at in UpdateTier
+// and RecordFile's upsert, the column defaults, tiering_policies.updated_at)
+// reads the OS clock with a resolution of one second, which the simulator does
+// not control: whether two tier updates fall into the same real second decides
+// the order of GetRecentlyMigratedFiles' "ORDER BY migrated_at DESC" and with
+// it the order in which ReconcileOrphanedFiles touches the hot tier, so a run
+// was a function of real time. Every statement (DDL included) therefore
+// reaches SQLite with its references to the OS clock replaced by
+// verif_now(), an SQL function registered on every connection of this driver
+// that returns the simulated wall clock of the node issuing the statement, in
+// CURRENT_TIMESTAMP's own format and resolution ("YYYY-MM-DD HH:MM:SS", UTC).
+// Like CURRENT_TIMESTAMP it is constant within a statement. Stamps that share
+// a simulated second tie exactly as stamps sharing a real second do in
+// production; which ones do is a function of the seed.
+var (
+	simStamp     string // value of verif_now() for the statement being executed
+	reClockDflt  = regexp.MustCompile(`(?i)\bDEFAULT\s+CURRENT_TIMESTAMP\b`)
+	reClockStamp = regexp.MustCompile(`(?i)\bCURRENT_TIMESTAMP\b`)
+	reClockDate  = regexp.MustCompile(`(?i)\bCURRENT_DATE\b`)
+	reClockTime  = regexp.MustCompile(`(?i)\bCURRENT_TIME\b`)
+	reClockNow   = regexp.MustCompile(`(?i)'now'`)
+)
+
+const sqliteStampFormat = "2006-01-02 15:04:05"
+
+func init() {
+	sql.Register("sqlite3-verif", &fdriver{inner: sqlite3.SQLiteDriver{ConnectHook: func(c *sqlite3.SQLiteConn) error {
+		return c.RegisterFunc("verif_now", func() string { return simStamp }, false)
+	}}})
+}
+
+// simClockSQL sets the instant verif_now() reports to the caller's simulated
+// wall clock (simrt.Now() is the OS clock outside a simulation) and returns q
+// with SQLite's clock sources replaced.
+func simClockSQL(q string) string {
+	simStamp = simrt.Now().UTC().Format(sqliteStampFormat)
+	if r, ok := simClockCache[q]; ok {
+		return r
+	}
+	r := reClockDflt.ReplaceAllString(q, "DEFAULT (verif_now())")
+	r = reClockStamp.ReplaceAllString(r, "verif_now()")
+	r = reClockDate.ReplaceAllString(r, "date(verif_now())")
+	r = reClockTime.ReplaceAllString(r, "time(verif_now())")
+	r = reClockNow.ReplaceAllString(r, "verif_now()")
+	if len(simClockCache) >= 1024 {
+		clear(simClockCache)
+	}
+	simClockCache[q] = r
+	return r
+}
+
+// statement texts are a handful of constants (values are bound); one task
+// runs at a time, so no lock
+var simClockCache = map[string]string{}
+
 type fconn struct{ c *sqlite3.SQLiteConn }
 
-func (f *fconn) Prepare(q string) (driver.Stmt, error) { return f.c.Prepare(q) }
+func (f *fconn) Prepare(q string) (driver.Stmt, error) { return f.c.Prepare(simClockSQL(q)) }
 func (f *fconn) Close() error                          { return f.c.Close() }
 func (f *fconn) Begin() (driver.Tx, error)             { return f.c.Begin() }
 func (f *fconn) BeginTx(ctx context.Context, o driver.TxOptions) (driver.Tx, error) {
 	return f.c.BeginTx(ctx, o)
 }
 func (f *fconn) PrepareContext(ctx context.Context, q string) (driver.Stmt, error) {
-	return f.c.PrepareContext(ctx, q)
+	return f.c.PrepareContext(ctx, simClockSQL(q))
 }
 func (f *fconn) Ping(ctx context.Context) error { return f.c.Ping(ctx) }
 func (f *fconn) ExecContext(ctx context.Context, q string, a []driver.NamedValue) (driver.Result, error) {
@@ -229,7 +285,29 @@ func (f *fconn) ExecContext(ctx context.Context, q string, a []driver.NamedValue
 			return nil, err
 		}
 	}
-	return f.c.ExecContext(ctx, q, a)
+	r, err := f.c.ExecContext(ctx, simClockSQL(q), a)
+	realClockProbe(q)
+	return r, err
+}
+
+// realClockProbe is a self-test aid. With VERIF_C12_REALSLEEP_MS=<ms> the
+// process really sleeps that long after each of the first
+// VERIF_C12_REALSLEEP_N (default 8) tier updates it executes, which moves
+// real-second boundaries between statements that normally share one real
+// second. Trace hashes must not change (`-oneseed N` then runs the first
+// execution with and the second without the sleeps).
+var realSleepMs, realSleepLeft = func() (int, int) {
+	ms, n := 0, 8
+	fmt.Sscan(os.Getenv("VERIF_C12_REALSLEEP_MS"), &ms)
+	fmt.Sscan(os.Getenv("VERIF_C12_REALSLEEP_N"), &n)
+	return ms, n
+}()
+
+func realClockProbe(q string) {
+	if realSleepMs > 0 && realSleepLeft > 0 && strings.Contains(q, "UPDATE tier_files") {
+		realSleepLeft--
+		time.Sleep(time.Duration(realSleepMs) * time.Millisecond)
+	}
 }
 func (f *fconn) QueryContext(ctx context.Context, q string, a []driver.NamedValue) (driver.Rows, error) {
 	if h := sqlHook; h != nil {
@@ -237,10 +315,8 @@ func (f *fconn) QueryContext(ctx context.Context, q string, a []driver.NamedValu
 			return nil, err
 		}
 	}
-	return f.c.QueryContext(ctx, q, a)
+	return f.c.QueryContext(ctx, simClockSQL(q), a)
 }
-
-func init() { sql.Register("sqlite3-verif", &fdriver{}) }
 
 func sqlClass(kind, q string) string {
 	has := func(s string) bool { return strings.Contains(q, s) }
@@ -693,21 +769,29 @@ func (w *world) restart(downtime time.Duration) bool {
 	return w.boot()
 }
 
-// normaliseStamps: SQLite's CURRENT_TIMESTAMP reads the OS clock, which the
-// simulator does not control. All simulated instants lie before 2026-08-01
-// and the OS clock after it, so within one process life "migrated_at is
-// recent" holds exactly as in production; when the process is gone the
-// stamps written during its life are rewritten to the simulated instant of
-// its death so that simulated downtime ages them correctly.
+// normaliseStamps is a safety net behind simClockSQL, which makes SQLite's
+// clock the simulated one: all simulated instants lie before 2026-08-01 and
+// the OS clock after it, so a migrated_at beyond that date reached SQLite's
+// own clock by a route the statement rewrite does not know (say a bare
+// datetime()). Such stamps are counted (note.c12_os_clock_stamp in the
+// summary: the run was not a pure function of its seed) and, the process that
+// wrote them being gone, rewritten to the simulated instant of its death so
+// that simulated downtime ages them.
 func (w *world) normaliseStamps(at time.Time) {
 	// issued by the harness task (not a task of the arc node): the statement
 	// hook ignores it
 	if w.db == nil {
 		return
 	}
-	_, err := w.db.Exec(`UPDATE tier_files SET migrated_at = ? WHERE migrated_at IS NOT NULL AND migrated_at > '2026-08-01'`, at.UTC().Format("2006-01-02 15:04:05"))
-	if err != nil && !strings.Contains(err.Error(), "no such table") {
-		panic(fmt.Sprintf("HARNESS-ERROR normalise: %v", err))
+	res, err := w.db.Exec(`UPDATE tier_files SET migrated_at = ? WHERE migrated_at IS NOT NULL AND migrated_at > '2026-08-01'`, at.UTC().Format(sqliteStampFormat))
+	if err != nil {
+		if !strings.Contains(err.Error(), "no such table") {
+			panic(fmt.Sprintf("HARNESS-ERROR normalise: %v", err))
+		}
+		return
+	}
+	if n, _ := res.RowsAffected(); n > 0 {
+		simrt.Count("note.c12_os_clock_stamp", n)
 	}
 }
 
@@ -1073,6 +1157,7 @@ func exec(p *C12Plan, cfg simrt.Config, crashAt int, contents [][]byte) *execRes
 				ex.inCold++
 			}
 		}
+		w.normaliseStamps(simrt.Now()) // counts OS-clock stamps of the last process life
 	})
 	ex.findings, ex.crashes, ex.faults = w.findings, w.crashes, w.faultsHit
 	return ex
